@@ -21,12 +21,34 @@ def decoder():
     return _decoder
 
 
+_cdecoder = None
+
+
+def compiled_decoder():
+    global _cdecoder
+    if _cdecoder is None:
+        from pybufrkit.decoder import Decoder
+        _cdecoder = Decoder(compiled_template_cache_max=4)
+    return _cdecoder
+
+
 def encoder():
     global _encoder
     if _encoder is None:
         from pybufrkit.encoder import Encoder
         _encoder = Encoder()
     return _encoder
+
+
+_cencoder = None
+
+
+def compiled_encoder():
+    global _cencoder
+    if _cencoder is None:
+        from pybufrkit.encoder import Encoder
+        _cencoder = Encoder(compiled_template_cache_max=4)
+    return _cencoder
 
 
 def template_pool(tier, k=2, c=1, nested=False, small_sigma=True):
